@@ -108,7 +108,18 @@ def run_case(case, ctx):
         U, M = U * unit, M * unit
         ctx.count("problems_in_other_units")
     u2 = unit * unit
+    int_eq = False
+    if unit == 1.0 and solver in ("hals", "fista", "active_set") and rs.rand() < 0.06:
+        # count data: an integer-valued design and data, the normal equations handed over as integer arrays
+        Ui = np.rint(U * 3).astype(np.int64)
+        Mi = np.rint(M * 3).astype(np.int64)
+        if np.linalg.matrix_rank(Ui) == Ui.shape[1] and np.linalg.cond(Ui.astype(float)) <= 50:
+            U, M = Ui.astype(float), Mi.astype(float)
+            int_eq = True
+            ctx.count("integer_normal_equations")
     UtU, UtM = U.T @ U, U.T @ M
+    if int_eq:
+        UtU, UtM = np.rint(UtU).astype(np.int64), np.rint(UtM).astype(np.int64)
     ctx.count("checked/%s" % solver)
     desc = {"solver": solver, "n": n, "k": k, "class": cls, "cond": round(float(np.linalg.cond(U)), 2)}
 
